@@ -690,6 +690,32 @@ def run(prog: Program) -> Results:
     from sa.rules import poslint
     poslint.check(prog, res, "R-C12-7")
     one_bare_name_language(prog, res, "R-C12-8")
+    # ------------------------------------------------------------ R-C12-9 every name read from a file passes the splitter
+    r9 = res.rule("R-C12-9", "every binding name read from a file is split by _split_attrpath (the one scanner that knows quotes and "
+                  "interpolations); a bypass is taken only under `\".\" not in name`, not under a guess about the quotes", floor=1)
+    bf = prog.func("Binding.from_cst")
+    bcfg = CFG(bf.node)
+    segvars = {norm(d.targets[0]) for d in walk_no_nested(bf.node) if isinstance(d, ast.Assign) and isinstance(d.value, ast.Call)
+               and callee(d.value) == "_split_attrpath"}
+    if not segvars:
+        res.unclass("Binding.from_cst: the _split_attrpath call was not found")
+    for n in bcfg.nodes:
+        a = n.ast
+        if isinstance(a, ast.Assign) and norm(a.targets[0]) in segvars:
+            r9.instances += 1
+            if isinstance(a.value, ast.Call) and callee(a.value) == "_split_attrpath":
+                r9.ob(True, {"definition": norm(a)[:60]})
+                continue
+            arg = next((norm(d.value.args[0]) for d in walk_no_nested(bf.node) if isinstance(d, ast.Assign) and isinstance(d.value, ast.Call)
+                        and callee(d.value) == "_split_attrpath" and d.value.args), "name")
+            e = edges_establishing(bcfg, lambda at, t, _a=arg: (norm(at) in (f"'.' not in {_a}",) and t is True) or (norm(at) == f"'.' in {_a}" and t is False))
+            ok = bool(e) and bcfg.all_paths_pass(n, cut_edges=e)
+            r9.ob(ok, {"definition": norm(a)[:60], "only_without_dot": ok})
+            if not ok:
+                res.add("R-C12-9", (bf.key, "attrpath text bypasses the splitter"), bf.loc(a),
+                        f"Binding.from_cst: `{norm(a)[:60]}` takes the name as a single segment on a path where it may contain a dot: "
+                        f"`\"a-b\".\"c-d\" = 2;` starts and ends with a quote but is two segments; read as one flat name, set/rm of that "
+                        f"path no longer find it (duplicate definition, KeyError)")
     res.tables.append("Nix lexical facts (keywords, bare alphabet, string escapes) embedded in sa/rules/c12.py")
     res.assumptions = ["Nix string lexing: \\n \\r \\t are control characters, any other \\x is x, a raw CR is normalised to LF"]
     return res
